@@ -224,6 +224,7 @@ def correspondence_ext(ctx: Ctx):
 
 
 LO, HI = 2.0 ** -60, 2.0 ** 60
+OUT_OF_RANGE_BOUND = 4.0
 
 
 def check_map_ranged(S: torch.Tensor, src: torch.Tensor, what: str):
@@ -237,6 +238,12 @@ def check_map_ranged(S: torch.Tensor, src: torch.Tensor, what: str):
     ok = (m == 0) | ((m >= LO) & (m <= HI))
     if ok.all():
         return base.check_map(S, src, what)
+    # outside the documented range: finite (checked above) and bounded — a pixel whose squares under/overflow may lose its
+    # normalisation (0, or off by the rounding of subnormal squares), but no entry may blow up
+    tot = (S.double() ** 2).sum(-1, keepdim=True).sum(1, keepdim=True)
+    if (tot[~ok] > OUT_OF_RANGE_BOUND).any():
+        return f"{what}-unbounded-outside-range", (f"a pixel whose magnitudes lie outside 2^-60..2^60 has sum over coils of |S|^2 = "
+                                                   f"{float(tot[~ok].max()):.3g} > {OUT_OF_RANGE_BOUND}")
     okb = ok.expand_as(S)
     return base.check_map(torch.where(okb, S, torch.zeros_like(S)), torch.where(okb, src, torch.zeros_like(src)), what)
 
@@ -556,7 +563,7 @@ def engine_classes():
     return _ENGINES
 
 
-def all_engines_case(name: str, seed: int):
+def all_engines_case(name: str, seed: int, extreme=None):
     import direct.data.transforms as T
     from omegaconf import OmegaConf
     from direct.config.defaults import DefaultConfig
@@ -572,11 +579,18 @@ def all_engines_case(name: str, seed: int):
     S0 = _kdata(seed, shape, rnd.choice([-40, 0, 40]), rnd.choice(["plain", "zero-coil", "zero-border"]))
     R = _kdata(seed + 1, shape, rnd.choice([-40, 0, 40]), rnd.choice(["plain", "zero-coil", "zero-border", "all-zero"]))
     mode = rnd.choice(["none", "2d"]) if not three_d else rnd.choice(["none", "3d", "slice"])
+    if extreme is not None:
+        spatial = [2, 4, 3] if three_d else [4, 3]
+        shape = [b, c] + spatial + [2]
+        S0 = extreme_tensor(seed, shape, extreme[0], extreme[1])
+        R = extreme_tensor(seed + 1, shape, extreme[0], extreme[1])
     models = {} if mode == "none" else {"sensitivity_model_3d" if mode == "3d" else "sensitivity_model": base.PlantedNet(R, mode)}
     eng = cls(OmegaConf.structured(DefaultConfig), torch.nn.Linear(1, 1), "cpu", T.fft2, T.ifft2, **models)
     eng.ndim = 3 if three_d else 2
     out = eng.compute_sensitivity_map(S0.clone())
     refined = mode != "none" and c > 1
+    if extreme is not None:
+        return check_map_ranged(out, R if refined else S0, f"engine-class-{name}")
     return base.check_map(out, R if refined else S0, f"engine-class-{name}")
 
 
@@ -711,7 +725,146 @@ def oracle_offmask(ctx: Ctx, deep: bool):
 
 
 # --------------------------------------------------------------------------------------------------
+# oracle: the whole float32 exponent range 2^-149 … 2^127 (denormals to near-overflow), also mixed across coils / pixels:
+# finite everywhere; unit-or-zero where the pixel lies inside the documented range; bounded (sum |S|^2 <= 4) outside it
+LADDER = [-149, -140, -127, -126, -110, -90, -84, -76, -75, -74, -70, -64, -61, -60, 0, 60, 61, 63, 64, 90, 120, 126, 127]
+FMAX = 3.4028234663852886e38
+
+
+def extreme_tensor(seed: int, shape, kind: str, e: int):
+    g = torch.Generator().manual_seed(seed)
+    rnd = __import__("random").Random(seed)
+    x = torch.randn(shape, generator=g).clamp(-3, 3)
+    x[x.abs() < 0.25] = 0.25
+    if kind == "uniform":
+        x = x * (2.0 ** max(e, -149)) if e < 126 else x / 4 * (2.0 ** e)
+    elif kind == "pow2":                       # every entry exactly ±2^e (2^-149 = smallest denormal, 2^127 near overflow)
+        x = torch.sign(x) * (2.0 ** e)
+    elif kind == "region":                     # normal-scale data with a block of pixels at 2^e (the seeded corner)
+        x[..., shape[-3] // 2:, :, :] *= (2.0 ** e) if e < 126 else (2.0 ** e) / 4
+    elif kind == "coil-mixed":                 # every coil its own magnitude from the ladder
+        for ci in range(shape[1]):
+            ee = e if ci == 0 else rnd.choice(LADDER)
+            x[:, ci] *= (2.0 ** ee) if ee < 126 else (2.0 ** ee) / 4
+    elif kind == "pixel-mixed":                # every pixel its own magnitude
+        ex = torch.tensor([rnd.choice(LADDER) for _ in range(math.prod(shape[2:-1]))], dtype=torch.float64).reshape([1, 1] + list(shape[2:-1]) + [1])
+        x = (x.double() / 4 * (2.0 ** ex)).float()
+    x = torch.nan_to_num(x, nan=0.0, posinf=FMAX, neginf=-FMAX)
+    if rnd.random() < 0.3:
+        x[..., 0, :, :] = 0                    # a row without signal
+    return x
+
+
+EXTREME_KINDS = ("uniform", "pow2", "region", "coil-mixed", "pixel-mixed")
+EXTREME_PATHS = ("forward-espirit-planted", "estimate-identity", "estimate-identity-gauss", "estimate-ifft2", "engine", "engine-refined", "engine-3d-slice", "jointicnet")
+
+
+def extreme_case(spec: dict):
+    import direct.data.transforms as T
+    from direct.data.mri_transforms import EstimateSensitivityMapModule, SensitivityMapType
+
+    path, kind, e, seed, c = spec["path"], spec["kind"], spec["e"], spec["seed"], spec["c"]
+    three_d = path == "engine-3d-slice"
+    shape = [1, c] + ([2] if three_d else []) + [4, 3, 2]
+    X = extreme_tensor(seed, shape, kind, e)
+    what = f"extreme-{path}"
+    if path == "forward-espirit-planted":      # the common tail of `forward` on an arbitrary calibrator output
+        mod = EstimateSensitivityMapModule(backward_operator=base.Identity(), type_of_map=SensitivityMapType.ESPIRIT)
+        mod.espirit_calibrator = PlantedCalib(X)
+        with warnings.catch_warnings():
+            warnings.simplefilter("ignore")
+            out = mod({"kspace": torch.ones_like(X), "acs_mask": torch.ones(1, 1, 4, 3, 1, dtype=torch.bool)})["sensitivity_map"]
+        return check_map_ranged(out, X, what)
+    if path.startswith("estimate"):
+        ident = "identity" in path
+        if not ident:
+            X = X.clamp(-2.0 ** 120, 2.0 ** 120)          # the inverse FFT itself must not overflow
+        mod = EstimateSensitivityMapModule(backward_operator=base.Identity() if ident else T.ifft2, type_of_map=SensitivityMapType.RSS_ESTIMATE,
+                                           gaussian_sigma=2.0 if path.endswith("gauss") else None)
+        sample = {"kspace": X.clone(), "acs_mask": torch.ones(1, 1, 4, 3, 1, dtype=torch.bool)}
+        with warnings.catch_warnings():
+            warnings.simplefilter("ignore")
+            src = mod.estimate_acs_image(dict(sample))
+            out = mod(sample)["sensitivity_map"]
+        if not torch.isfinite(src).all():
+            return None                                    # the ACS image itself overflowed: outside "finite input"
+        return check_map_ranged(out, src, what)
+    if path == "jointicnet":
+        from direct.nn.jointicnet.jointicnet import JointICNet
+        torch.manual_seed(seed)
+        net = JointICNet(T.fft2, T.ifft2, 1, False, image_unet_num_filters=2, image_unet_num_pool_layers=1, kspace_unet_num_filters=2,
+                         kspace_unet_num_pool_layers=1, sens_unet_num_filters=2, sens_unet_num_pool_layers=1).eval()
+        with torch.no_grad():
+            net.lr_sens.zero_()                            # no sensitivity update: the network normalises exactly the maps it is given
+        # the image normalisation of the network (image / max |image|) needs some normal-scale signal: half of the pixels
+        X = extreme_tensor(seed, shape, "region", e).clamp(-2.0 ** 100, 2.0 ** 100)
+        seen = []
+        orig = net._forward_operator
+
+        def rec(image, sampling_mask, sensitivity_map):
+            seen.append(sensitivity_map.detach().clone())
+            return orig(image, sampling_mask, sensitivity_map)
+        net._forward_operator = rec
+        g = torch.Generator().manual_seed(seed)
+        m = torch.rand([1, 1, 4, 3, 1], generator=g) < 0.7
+        y = torch.where(m, torch.randn(shape, generator=g), torch.tensor([0.0]))
+        with torch.no_grad():
+            net(y, m, X.clone())
+        if len(seen) < 2:
+            return "jointicnet-no-maps", "JointICNet never used a normalised map"
+        return check_map_ranged(seen[1], X, what)      # seen[0] is the caller's map, seen[1] the one the network normalised
+    eng = base.toy_engine()
+    try:
+        if path == "engine":
+            eng.models, eng.ndim = {}, 2
+            out = eng.compute_sensitivity_map(X.clone())
+        elif path == "engine-refined":
+            eng.ndim, eng.models = 2, {"sensitivity_model": base.PlantedNet(X, "2d")}
+            out = eng.compute_sensitivity_map(torch.ones_like(X))
+            if c == 1:
+                X = torch.ones_like(X)
+        else:
+            eng.ndim, eng.models = 3, {"sensitivity_model": base.PlantedNet(X, "slice")}
+            out = eng.compute_sensitivity_map(torch.ones_like(X))
+            if c == 1:
+                X = torch.ones_like(X)
+    finally:
+        eng.models = {}
+    return check_map_ranged(out, X, what)
+
+
+def oracle_extremes(ctx: Ctx, deep: bool):
+    rng = ctx.rng
+    reps = ctx.budget(1, 4) * (2 if deep else 1)
+    for path in EXTREME_PATHS:
+        for e in LADDER:
+            for _ in range(reps):
+                spec = {"path": path, "kind": rng.choice(EXTREME_KINDS), "e": e, "c": rng.choice([1, 2, 3, 5]), "seed": rng.randrange(1, 2 ** 20)}
+                if path == "jointicnet":
+                    spec["kind"] = "region"
+                ctx.count(("o-extreme", tuple(sorted(spec.items()))), True, bucket=f"oracle/extreme/{path}/2^{e}")
+                try:
+                    res = extreme_case(spec)
+                except Exception as ex:  # noqa: BLE001
+                    res = (f"extreme-{path}-raises", f"raises {err_name(ex)}: {str(ex)[:200]}")
+                if res:
+                    yield Violation(res[0], res[1] + f" [{spec}]", {"op": "extreme", "spec": spec})
+    # every engine class (= every site of the sens_sites table goes through the class's compute_sensitivity_map)
+    for name in sorted(engine_classes()):
+        for _ in range(ctx.budget(2, 8) * (2 if deep else 1)):
+            spec = {"name": name, "kind": rng.choice(EXTREME_KINDS), "e": rng.choice(LADDER), "seed": rng.randrange(1, 2 ** 20)}
+            ctx.count(("o-extreme-class", tuple(sorted(spec.items()))), True, bucket=f"oracle/extreme/engine-class/{name}")
+            try:
+                res = all_engines_case(name, spec["seed"], extreme=(spec["kind"], spec["e"]))
+            except Exception as ex:  # noqa: BLE001
+                res = (f"engine-class-{name}-raises", f"{name}.compute_sensitivity_map raises {err_name(ex)}: {str(ex)[:200]}")
+            if res:
+                yield Violation(res[0], res[1] + f" [{spec}]", {"op": "extreme_class", "spec": spec})
+
+
+# --------------------------------------------------------------------------------------------------
 def oracle_ext(ctx: Ctx, deep: bool):
+    yield from oracle_extremes(ctx, deep)
     yield from oracle_offmask(ctx, deep)
     yield from oracle_matrix(ctx, deep)
     yield from oracle_espirit(ctx, deep)
@@ -728,6 +881,11 @@ def replay_ext(rep: dict):
         return matrix_case(rep["spec"]) is not None
     if op == "offmask":
         return offmask_case(rep["spec"]) is not None
+    if op == "extreme":
+        return extreme_case(rep["spec"]) is not None
+    if op == "extreme_class":
+        sp = rep["spec"]
+        return all_engines_case(sp["name"], sp["seed"], extreme=(sp["kind"], sp["e"])) is not None
     if op == "espirit":
         return espirit_case(rep["spec"]) is not None
     if op == "pipeline_espirit":
